@@ -17,8 +17,9 @@ Probe shapes (C++11):
 """
 import viewgen
 
-BYTE = {"mut": "char", "const": "const char"}
-CUR = {"mut": "::sbepp::cursor<char>", "const": "::sbepp::cursor<const char>", "none": "::c11::nocursor"}
+BYTE = {"mut": "char", "const": "const char", "vol": "volatile char", "cvol": "const volatile char"}
+CUR = {"mut": "::sbepp::cursor<char>", "const": "::sbepp::cursor<const char>", "none": "::c11::nocursor",
+       "vol": "::sbepp::cursor<volatile char>", "cvol": "::sbepp::cursor<const volatile char>"}
 
 WRAP = {"plain": "$C", "init": "::sbepp::cursor_ops::init($C)", "dont_move": "::sbepp::cursor_ops::dont_move($C)",
         "init_dont_move": "::sbepp::cursor_ops::init_dont_move($C)", "skip": "::sbepp::cursor_ops::skip($C)"}
